@@ -294,6 +294,9 @@ func c07Call(j entryJob) (outcome, detail string) {
 		}
 		return report(v, err)
 	case "marshal":
+		if j.With == "recursion" {
+			cfg.Iterator.RecursionSupport = true
+		}
 		val := c07Value(j.Class)
 		var err error
 		var buf bytes.Buffer
@@ -687,7 +690,7 @@ func checkC07Entries(c *Check) {
 		c.Count(key, true)
 		what := fmt.Sprintf("%s %s, %s input %s, with %s", j.Op, j.Entry, j.Class, show, j.With)
 		if j.Op == "marshal" {
-			what = fmt.Sprintf("%s of a %s value", j.Entry, j.Class)
+			what = fmt.Sprintf("%s of a %s value (%s configuration)", j.Entry, j.Class, j.With)
 		}
 		wit := map[string]interface{}{"kind": "entry-point", "job": j, "outcome": r.Outcome, "detail": r.Detail}
 		switch r.Outcome {
